@@ -135,6 +135,17 @@ class Case:
                 pid = {"ParametricRX": [1], "ParametricRY": [2], "ParametricRZ": [3]}.get(name, ids)
                 self.gen.append(O.apply_local(np.eye(dim, dtype=complex), O.embed_pauli_string(len(qs), pid), qs, n))
         self.vec = None
+        # construction history: the circuit may be the combination of a linear-mapped circuit with itself or with a copy
+        # of itself (the two halves then share their parameters AND, in the library, the gate parameters of the halves)
+        self.combo = None
+        self.half = list(self.entries)
+        if mode == "linear" and rng.random() < 0.2:
+            self.combo = rng.choice(["c+c", "c.extend(copy)", "copy.extend(c)", "c+=c", "frozen+frozen"])
+            self.entries = self.half + self.half
+            self.A = np.vstack([self.A, self.A])
+            self.c = np.concatenate([self.c, self.c])
+            self.gen = self.gen + self.gen
+            self.G = 2 * gi
 
     # ---- library objects
     def build_circuit(self, compiled=False):
@@ -144,7 +155,7 @@ class Case:
             ps = c.add_parameters(*[f"t{i}" for i in range(self.n_in)])
         else:
             c = UnboundParametricQuantumCircuit(n)
-        for e in self.entries:
+        for e in self.half:
             if e[0] == "fixed":
                 c.add_gate(e[1])
                 continue
@@ -158,6 +169,18 @@ class Case:
             else:
                 args = (qs, ids) if name == "ParametricPauliRotation" else (qs[0],)
             getattr(c, f"add_{name}_gate")(*args)
+        if self.combo == "c+c":
+            c = c + c
+        elif self.combo == "c.extend(copy)":
+            c.extend(c.get_mutable_copy())
+        elif self.combo == "copy.extend(c)":
+            c2 = c.get_mutable_copy()
+            c2.extend(c)
+            c = c2
+        elif self.combo == "c+=c":
+            c += c.freeze()
+        elif self.combo == "frozen+frozen":
+            c = c.freeze() + c.freeze()
         return compile_parametric_circuit(c) if compiled else c
 
     def build_state(self, compiled=False):
@@ -261,7 +284,7 @@ class Case:
         return E0, self.A.T @ g1, self.A.T @ H @ self.A
 
     def desc(self):
-        return {"n": self.n, "mode": self.mode, "n_in": self.n_in,
+        return {"n": self.n, "mode": self.mode, "n_in": self.n_in, "built_as": self.combo or "direct",
                 "vector": None if self.vec is None else [complex(x) for x in self.vec],
                 "entries": [("fixed", describe_gate(e[1])) if e[0] == "fixed" else
                             ("param", e[1], e[2], e[3], {str(k): v for k, v in e[4].items()}) for e in self.entries],
@@ -282,6 +305,8 @@ class Case:
             f.append("zero-coef")
         if (~nz).all(axis=0).any():
             f.append("unused-param")
+        if self.combo:
+            f.append("self-combination")
         return f or ["plain"]
 
 
